@@ -96,6 +96,7 @@ package io
 //@   loop 1 invariant dec.reader != nil ==> ghost.rpos[ival(dec.reader)] == lp0 + len(data) && len(dec.buf) > 0
 //@   loop 1 invariant dec.reader == nil ==> same(dec.buf, old(dec.buf)) && dec.tail == old(dec.tail)
 //@   loop 1 invariant old(dec.Error) != nil ==> dec.Error != nil
+//@   loop 1 invariant arr(dec.buf) == old(arr(dec.buf)) || isnew(arr(dec.buf))
 //@   ensures [never_more_than_asked] len(data) <= n0 || (n0 < 0 && len(data) == 0)
 //@   ensures [short_only_with_error] len(data) < n0 ==> dec.Error != nil
 //@   ensures [negative_length_is_an_error] n0 < 0 ==> dec.Error != nil
